@@ -41,6 +41,9 @@ var spareVals = []*lang.Val{
 func genAPI(t *rapid.T) *payload {
 	tp := genTemplateProgram(t, rapid.IntRange(0, 4).Draw(t, "apiErr") == 0)
 	p := &payload{Kind: "api", Family: "template", Source: tp.src.String(), Modules: tp.mods}
+	if tp.lowLimit {
+		p.MaxStrLen = 256
+	}
 	if raceEnabled {
 		p.Free = rapid.IntRange(0, 1).Draw(t, "free") == 0
 	} else {
